@@ -241,7 +241,9 @@ def check_growth(ctx):
     f = ctx.fn('types:StateDependentVolume.cell_divided')
     a = [x.arg for x in f.args.args[1:]]
     ifs = [s for s in f.body if isinstance(s, ast.If)]
-    ok = len(ifs) == 1 and src(ifs[0].test).replace(' ', '') in ('%s>self.division_volume' % a[3], '%s>=self.division_volume' % a[3]) and \
+    import ast as _ast
+    accepted = {util.canon_test(_ast.parse(t_, mode='eval').body) for t_ in ('%s > self.division_volume' % a[3], '%s >= self.division_volume' % a[3])}
+    ok = len(ifs) == 1 and util.canon_test(ifs[0].test) in accepted and \
         [util.stmt_key(s) for s in ifs[0].body] == ['return 1'] and util.stmt_key(f.body[-1]) == 'return 0'
     ctx.ob('R11.5-division-window', 'StateDependentVolume.cell_divided', ok, ctx.loc('types', f),
            'the cell divides iff the volume exceeds the pre-drawn division volume', '')
